@@ -5,4 +5,4 @@
 using namespace simd;
 using D = fixed_tvpi_domain<split_dbm_domain<z_number, varname_t, G_int64>>;
 SIM_REGISTER_DOMAIN(fixed_tvpi_zones, D, "fixed_tvpi_zones",
-                    CAP_INT64 | CAP_NTOW)
+                    CAP_INT64 | CAP_NTOW | CAP_BACKWARD)
